@@ -282,6 +282,7 @@ func (r *pwRun) checkMaster(after string) *core.Violation {
 			at["diff"] = k
 			k = "stale_master_after_failover"
 		}
+		at["lost_vs_flush"] = r.lostVsFlush(n, d)
 		return pviol(k, fmt.Sprintf("%s, master partition %d on node %d: %s", after, r.c.meta.masterPt(), mi, det), at)
 	}
 	return nil
@@ -316,7 +317,7 @@ func (r *pwRun) checkAllReplicas(after string) *core.Violation {
 				kind = k
 			}
 			return pviol(kind, fmt.Sprintf("%s: node %d (%s) differs from the acknowledged writes (%s): %s", after, i, role, k, det),
-				map[string]string{"after": after, "read_from": role, "diff": k, "victim": r.lastVictimRole})
+				map[string]string{"after": after, "read_from": role, "diff": k, "victim": r.lastVictimRole, "lost_vs_flush": r.lostVsFlush(n, dumps[i])})
 		}
 	}
 	// pairwise: where writes without acknowledgement leave a choice, all replicas made the same one
